@@ -380,6 +380,20 @@ def w_align(ctx, rng, i):
                 T = loose(tgt)
             ctx.bump("meshes_with_vertices_no_triangle_uses")
         t = getattr(mt, kind)(S, T, **opts)
+        if rng.random() < 0.3:
+            # a target of another size / dimensionality is refused - and the alignment goes on reporting the target (and being the
+            # fit) it had
+            h0_, tp0_ = np.array(t.h_matrix, dtype=float), np.array(t.target.points, copy=True)
+            bad_ = ms.PointCloud(rng.normal(size=(len(src) + int(rng.integers(1, 3)), d))) if rng.random() < 0.6 else ms.PointCloud(rng.normal(size=(len(src), 5 - d)))
+            ctx.tap("mismatched_target_refused", "calls"); ctx.tap("mismatched_target_refused", "checked")
+            try:
+                with taps.quiet():
+                    t.set_target(bad_)
+                ctx.fail("mismatched_target_accepted", cls=kind, mech="points_%d_to_%d:dims_%d_to_%d" % (len(src), bad_.n_points, d, bad_.n_dims))
+            except Exception:
+                pass
+            if np.asarray(t.target.points).shape != tp0_.shape or tx.maxdiff(t.target.points, tp0_) > 0 or tx.maxdiff(np.asarray(t.h_matrix, dtype=float), h0_) > 0:
+                ctx.fail("refused_target_changed_the_alignment", cls=kind, mech="target" if np.asarray(t.target.points).shape != tp0_.shape or tx.maxdiff(t.target.points, tp0_) > 0 else "matrix")
         if rng.random() < 0.3 and not int_src:
             # the same point sets in single precision (what a float32 pipeline hands over): accepted, and the same fit to
             # single-precision accuracy
